@@ -48,6 +48,11 @@ type Obl struct {
 	Query   string
 }
 
+type instrKind struct {
+	in   ssa.Instruction
+	kind string
+}
+
 type LoopInfo struct {
 	Header  *ssa.BasicBlock
 	Body    map[*ssa.BasicBlock]bool
@@ -90,7 +95,7 @@ type Exec struct {
 	params  map[string]Value
 
 	ordinals map[string]int
-	instrOrd map[ssa.Instruction]string
+	instrOrd map[instrKind]string
 
 	inlined   map[string]bool
 	byContr   map[string]bool
@@ -124,7 +129,7 @@ func NewExec(p *Prog, fn *ssa.Function, c *Contract) *Exec {
 		addrObjs: map[string]*Object{}, objAddr: map[*Object]T{},
 		writtenLocs: map[string]*Loc{}, writtenRegs: map[string]*Region{}, allLocs: map[string]*Loc{},
 		nonNil: map[string]bool{}, oblSeen: map[string]bool{}, unsupS: map[string]bool{},
-		ordinals: map[string]int{}, instrOrd: map[ssa.Instruction]string{},
+		ordinals: map[string]int{}, instrOrd: map[instrKind]string{},
 		inlined: map[string]bool{}, byContr: map[string]bool{}, intrUsed: map[string]bool{}, unspec: map[string]bool{},
 		specFns: map[string]bool{}, maxPaths: 4000,
 		errDyn: map[string]types.Type{}, freshRegs: map[*Region]bool{}, regionAlias: map[*Region]*Region{}, anyElems: map[string]Value{}, zeroObjs: map[*Object]Value{},
@@ -248,7 +253,8 @@ func (p *Prog) loopsOf(fn *ssa.Function) *LoopSet {
 // Obligations
 
 func (e *Exec) ordinalName(instr ssa.Instruction, kind string) string {
-	if n, ok := e.instrOrd[instr]; ok {
+	ik := instrKind{instr, kind}
+	if n, ok := e.instrOrd[ik]; ok {
 		return n
 	}
 	fnk := "?"
@@ -261,7 +267,7 @@ func (e *Exec) ordinalName(instr ssa.Instruction, kind string) string {
 	if fnk != e.unit {
 		n = fmt.Sprintf("safe:%s@%s#%d", kind, fnk, e.ordinals[k])
 	}
-	e.instrOrd[instr] = n
+	e.instrOrd[ik] = n
 	return n
 }
 
@@ -764,11 +770,10 @@ func (e *Exec) havocKey(st *State, w string, tag string) {
 		if l == nil {
 			return
 		}
-		typ := typeAtPath(l.Obj.Typ, l.Path)
-		if typ == nil {
+		nv := e.materializeAt(l.Obj.Typ, l.Path, fmt.Sprintf("%s.%s%s", l.Obj.Name, pathKey(l.Path), tag))
+		if nv == nil {
 			return
 		}
-		nv := e.materialize(fmt.Sprintf("%s.%s%s", l.Obj.Name, pathKey(l.Path), tag), typ)
 		root := e.objRoot(st, l.Obj)
 		st.Objs[l.Obj] = e.setPath(root, l.Path, nv)
 		return
